@@ -3181,7 +3181,7 @@ impl Zeroconf {
                 continue;
             }
 
-            for ptr in records.iter().filter(|r| !r.record.expires_soon(now)) {
+            for ptr in records.iter() {
                 let Some(dns_ptr) = ptr.record.any().downcast_ref::<DnsPointer>() else {
                     continue;
                 };
@@ -3198,6 +3198,10 @@ impl Zeroconf {
 
                 debug!("resolve_updated_instances: from cache: {instance}");
                 if resolved_service.is_valid() {
+                    if ptr.record.expires_soon(now) {
+                        // Not worth reporting, but still in the cache.
+                        continue;
+                    }
                     debug!("call queriers to resolve {instance}");
                     resolved.insert(instance.to_string());
                     let event = ServiceEvent::ServiceResolved(Box::new(resolved_service));
